@@ -15,6 +15,8 @@ from .tree_common import check_from_list_rows, check_sep, resolve_const
 def check(ck: Checker) -> None:
     from . import round4 as _r4
 
+    _r4.tree_load_rejects_only_nonlist(ck, "C20.listing")
+    _r4.trie_setitem_always_writes(ck, "C20.trie")
     _r4.hashinfo_from_dict_strict(ck, "C20.hashinfo")
     ck.decided = [
         "C20.entry: DataIndexEntry.to_dict writes exactly the keys from_dict reads (meta, hash_info, loaded), each through the matching converter; loaded is written unconditionally",
@@ -188,8 +190,9 @@ def _keys(ck: Checker) -> None:
         g = ck.cfg(r)
         loops = [h for h in g.nodes.values() if h.kind == "for"]
         for h in loops:
-            ks = [n for n in g.nodes.values() if h.id in n.loops and n.kind == "stmt" and isinstance(n.ast, ast.Assign) and norm(n.ast.targets[0]) == "entry.key"]
             ad = [n for n in g.nodes.values() if h.id in n.loops for c in calls_at(n) if is_method_call(c, "add") and norm(c.func.value) == "index"]
+            added = {norm(c.args[0]) for n in ad for c in calls_at(n) if is_method_call(c, "add") and c.args}
+            ks = [n for n in g.nodes.values() if h.id in n.loops and n.kind == "stmt" and isinstance(n.ast, ast.Assign) and isinstance(n.ast.targets[0], ast.Attribute) and n.ast.targets[0].attr == "key" and norm(n.ast.targets[0].value) in added]
             ok = bool(ks) and bool(ad) and all("split(" in norm(k.ast.value) and norm(k.ast.value).startswith("tuple(") for k in ks)
             if ok:
                 rr = g.reach([d for lab, d in h.succ if lab == "T"], skip_node=lambda x: x.id in {a.id for a in ad}, skip_edge=lambda a, l, b: l == "exc")
